@@ -3,7 +3,8 @@ From Coq Require Import List NArith Bool Lia.
 Import ListNotations.
 From Snaps Require Import Base.Bytes Base.Assoc.
 From Snaps Require Import Model.Frame Model.PathModel Model.Mode Model.Api.
-From Snaps Require Import Proofs.ApiP Proofs.StandaloneP Proofs.StepP Proofs.OutcomeP.
+From Snaps Require Import Model.Clean Model.Summary.
+From Snaps Require Import Proofs.ApiP Proofs.StandaloneP Proofs.StepP Proofs.OutcomeP Proofs.SummaryP Proofs.SummaryHistoryP.
 
 (* each Match* call with at least one value ends in exactly one of passed / added / updated /
    failed (the documented MatchSnapshot(t) without values only logs a warning) *)
@@ -27,6 +28,48 @@ Theorem C20_counters : forall ops s,
   length (s_skipped (fst (run s ops))) = length (s_skipped s) + count_skips (snd (run s ops)).
 Proof. exact run_counters. Qed.
 Print Assumptions C20_counters.
+
+(* the TEXT Clean prints (byte-exact model of summary()/fmt.Println, with or without ANSI colours), read by an
+   independent line-oriented reader, shows exactly the data it was printed from: the four outcome totals, the
+   number of skips, the two lists item by item, and the obsolete/removed wording (items without newline / ESC) *)
+Theorem C20_summary_readable : forall nocolor d,
+  items_ok d -> read_summary (clean_stdout nocolor d) = Some (sumread_of d).
+Proof. exact read_summary_correct. Qed.
+Print Assumptions C20_summary_readable.
+
+(* ... and over whole histories: what the reader sees in Clean's output after any history of API calls are the
+   tallies of the outcomes of those calls, the number of snaps.Skip* calls, and exactly the lists Clean judged obsolete *)
+Theorem C20_summary_totals : forall ops s0 sort_opt count nocolor,
+  Forall api_op ops -> ~ In ONewProcess ops ->
+  let s := fst (run s0 ops) in
+  let r := snd (clean_run s sort_opt count) in
+  items_ok (sumdata_of_result r) ->
+  exists rd, read_summary (clean_stdout nocolor (sumdata_of_result r)) = Some rd /\
+    sr_counts rd = tally (snd (run s0 ops)) (s_events s0) /\
+    sr_skipped rd = length (s_skipped s0) + count_skips (snd (run s0 ops)) /\
+    sr_files rd = cr_obsolete_files r /\ sr_tests rd = cr_obsolete_tests r.
+Proof. exact summary_totals_history. Qed.
+Print Assumptions C20_summary_totals.
+
+(* nothing is printed exactly when there is nothing to show *)
+Theorem C20_summary_empty_iff : forall nocolor d,
+  summary nocolor d = [] <->
+  sd_files d = [] /\ sd_tests d = [] /\
+  n_erred (sd_counts d) = 0 /\ n_added (sd_counts d) = 0 /\
+  n_updated (sd_counts d) = 0 /\ n_passed (sd_counts d) = 0 /\ sd_skipped d = 0.
+Proof. exact summary_empty_iff. Qed.
+Print Assumptions C20_summary_empty_iff.
+
+(* two different data never print the same text (in either colour mode) *)
+Theorem C20_summary_injective : forall nc1 nc2 d1 d2, items_ok d1 -> items_ok d2 ->
+  clean_stdout nc1 d1 = clean_stdout nc2 d2 -> sumread_of d1 = sumread_of d2.
+Proof. exact summary_injective_partial. Qed.
+Print Assumptions C20_summary_injective.
+
+(* the hypothesis on items is necessary: an item with a newline forges a section (computed) *)
+Theorem C20_summary_newline_item_refuted : exists d, read_summary (clean_stdout true d) <> Some (sumread_of d).
+Proof. exact newline_item_breaks_ex. Qed.
+Print Assumptions C20_summary_newline_item_refuted.
 
 Example C20_example :
   let e := {| ci := false; upd := UUnset; colour := false |} in
